@@ -26,8 +26,18 @@ Definition R := agg_ref wavg_mask rules non_loss.
 Definition case (a : agg_args) (t : list cell) (impl : result (list cell)) : bool * bool :=
   (result_ueqb (A a t) impl, result_ueqb (R a t) impl).
 """
-UNITS = {"month": "UMonth", "months": "UMonth", "Month": "UMonth", "quarter": "UQuarter", "quarters": "UQuarter",
-         "year": "UYear", "years": "UYear", "day": "UDay", "days": "UDay", "week": "UWeek", "weeks": "UWeek"}
+class _Units:
+    """Own reading of the documented unit vocabulary: month(s) / quarter(s) / year(s) / day(s) / week(s), any
+    letter case, surrounding blanks allowed."""
+    TAGS = {"month": "UMonth", "quarter": "UQuarter", "year": "UYear", "day": "UDay", "week": "UWeek"}
+
+    def __getitem__(self, u):
+        w = u.strip().lower()
+        w = w[:-1] if w.endswith("s") else w
+        return self.TAGS[w]
+
+
+UNITS = _Units()
 
 
 def std(res):
@@ -98,29 +108,28 @@ def args_from_data(d):
     return out
 
 
-def run_aggregate(cells, args):
+def run_aggregate(cells, args, twice=False):
     from bermuda import Triangle
 
     t = Triangle(cells)
-    return t, S.run_impl(lambda: t.aggregate(**args))
+    if twice:
+        st, r, fails = S.run_twice(t, lambda: t.aggregate(**args))
+        return t, (st, r), fails
+    return t, S.run_impl(lambda: t.aggregate(**args)), []
 
 
 # ------------------------------------------------------------------------------------------ oracle
 def in_domain(cells, args):
-    """month units need a month-aligned triangle and month-end origins (1970-2100)."""
+    """The scope of the C08 theorems: quantities >= 1; month units need a month-end origin (any year);
+    the triangle itself need not be month-aligned."""
     pr, er = std(args["period_resolution"]), std(args["eval_resolution"])
     for r, o in ((pr, args["period_origin"]), (er, args["eval_origin"])):
         if r is None:
             continue
         if r[0] < 1:
             return False
-        if r[1] == "month":
-            if not is_mend(o) or not (1971 <= o.year <= 2099):
-                return False
-            for c in cells:
-                if c.period_start.day != 1 or not is_mend(c.period_end) or not is_mend(c.evaluation_date) \
-                        or not (1971 <= c.period_start.year and c.evaluation_date.year <= 2099):
-                    return False
+        if r[1] == "month" and not is_mend(o):
+            return False
     return True
 
 
@@ -130,7 +139,7 @@ def expected_cum(cells, args, notes):
     pr, er = std(args["period_resolution"]), std(args["eval_resolution"])
     slices = {}
     for c in cells:
-        slices.setdefault(c.metadata, []).append(c)
+        slices.setdefault(S.meta_key(c.metadata), []).append(c)     # never Metadata.__hash__/__eq__
     out = []
     straddle = False
     for m, sl in slices.items():
@@ -168,15 +177,22 @@ def check_cum(cells, args, status, res, notes):
         fails.append(f"valid aggregation refused with {type(res).__name__}: {res}")
         return fails
     prem = args["summarize_premium"]
+    if std(args["period_resolution"]) is None:
+        want = sorted(repr(canon_cell(g[0])) for _, _, _, _, g, _ in exp[1])
+        have = sorted(repr(canon_cell(o)) for o in res)
+        if want != have:
+            fails.append(f"evaluation-only aggregation must keep exactly the cells whose evaluation date is on the grid: "
+                         f"{len(have)} cells returned, {len(want)} expected")
+        return fails
     got = {}
     for o in res:
-        key = (canon_meta(o.metadata), o.period_start, o.period_end, o.evaluation_date)
+        key = (S.meta_key(o.metadata), o.period_start, o.period_end, o.evaluation_date)
         if key in got:
             fails.append(f"two output cells for slice/window/evaluation date {key[1:]}")
         got[key] = o
     want_keys = set()
     for m, ws, we, e, g, passthrough in exp[1]:
-        key = (canon_meta(m), ws, we, e)
+        key = (m, ws, we, e)
         want_keys.add(key)
         o = got.get(key)
         if o is None:
@@ -188,6 +204,8 @@ def check_cum(cells, args, status, res, notes):
             continue
         if type(o).__name__ != "CumulativeCell":
             fails.append(f"output cell class {type(o).__name__}")
+        if canon_meta(o.metadata) not in [canon_meta(c.metadata) for c in g]:
+            fails.append(f"output metadata {o.metadata} is not the metadata of a source cell of window {ws}..{we} at {e}")
         gk = {k for c in g for k in c.values}
         if set(o.values) != gk:
             fails.append(f"key set {sorted(o.values)} != {sorted(gk)} for window {ws}..{we} at {e}")
@@ -214,12 +232,12 @@ def check_cum(cells, args, status, res, notes):
                 for k, v in c.values.items():
                     if k in S.RATIO or (not prem and k in S.NON_LOSS):
                         continue
-                    tot_in.setdefault((canon_meta(m), e, k), []).append(v)
+                    tot_in.setdefault((m, e, k), []).append(v)
         for o in res:
             for k, v in o.values.items():
                 if k in S.RATIO or (not prem and k in S.NON_LOSS):
                     continue
-                tot_out.setdefault((canon_meta(o.metadata), o.evaluation_date, k), []).append(v)
+                tot_out.setdefault((S.meta_key(o.metadata), o.evaluation_date, k), []).append(v)
         for key in set(tot_in) | set(tot_out):
             a, b = S.exact_total(tot_in.get(key, [])), S.exact_total(tot_out.get(key, []))
             if a is not None and b is not None and a[1] != b[1]:
@@ -235,10 +253,11 @@ def py_to_cumulative(cells):
 
     rows = {}
     for c in cells:
-        rows.setdefault((c.metadata, c.period_start, c.period_end), []).append(c)
+        rows.setdefault((S.meta_key(c.metadata), c.period_start, c.period_end), []).append(c)
     out = []
-    for (m, ps, pe), row in rows.items():
+    for (_, ps, pe), row in rows.items():
         row = sorted(row, key=lambda c: (c.evaluation_date, c.prev_evaluation_date))
+        m = row[0].metadata
         if row[0].prev_evaluation_date + datetime.timedelta(days=1) != ps:
             return None
         cur, cur_ev = None, None
@@ -263,10 +282,11 @@ def py_to_incremental(cells):
 
     rows = {}
     for c in cells:
-        rows.setdefault((c.metadata, c.period_start, c.period_end), []).append(c)
+        rows.setdefault((S.meta_key(c.metadata), c.period_start, c.period_end), []).append(c)
     out = []
-    for (m, ps, pe), row in rows.items():
+    for (_, ps, pe), row in rows.items():
         row = sorted(row, key=lambda c: c.evaluation_date)
+        m = row[0].metadata
         prev_c = None
         for c in row:
             if prev_c is None:
@@ -350,21 +370,38 @@ class AggGen(S.SummGen):
         fields = r.sample(S.ADDITIVE, r.randint(1, 3))
         n_samples = r.choice([2, 3])
         cells = []
+        respelled = 0
+        mixed_kinds = basis == "cum" and r.random() < 0.05
         for m in ms:
             rows_s = rows if r.random() < 0.8 else rows[r.randint(0, len(rows) - 1):]
             sf = fields if r.random() < 0.7 else r.sample(fields, r.randint(1, len(fields)))
             flavour = r.choice(["ts", "dt"]) if (basis == "cum" and r.random() < 0.08) else "date"
+            # one slice, two spellings of its (equal) metadata, alternating cell by cell -- cumulative input only:
+            # the incremental path goes through Model/Basis.v, which groups rows by the printed metadata
+            spell = S.respell(m) if (basis == "cum" and r.random() < 0.2) else (m, m)
+            respelled += spell[0] is not m
+            n_in_slice = 0
             for ps, pe, evs in rows_s:
                 prev = ps - datetime.timedelta(days=1)
                 rf = sf if (basis == "inc" or r.random() < 0.85) else r.sample(sf, r.randint(1, len(sf)))
                 for e in evs:
-                    vals = {f: self.field_value(vk, f, n_samples) for f in rf}
+                    vals = {f: self.field_value(vk if not mixed_kinds else r.choice(["int", "float", "arr_int", "arr_float"]), f, n_samples)
+                            for f in rf}
+                    if basis == "cum" and r.random() < 0.06:
+                        f0 = r.choice(rf)
+                        vals[f0] = None if r.random() < 0.5 else vals[f0] * 0
                     if basis == "inc":
                         cells.append(IncrementalCell(period_start=ps, period_end=pe, prev_evaluation_date=prev,
                                                      evaluation_date=e, values=vals, metadata=m))
                         prev = e
                     else:
-                        cells.append(S.mk_cell(CumulativeCell, flavour, ps, pe, e, vals, m))
+                        cells.append(S.mk_cell(CumulativeCell, flavour, ps, pe, e, vals, spell[n_in_slice % 2]))
+                        n_in_slice += 1
+        prem = r.random() < 0.85
+        if basis == "cum" and r.random() < 0.06 and (prem or model_sort_is_stable()):                # restated cells
+            for c in r.sample(cells, min(len(cells), r.randint(1, 3))):
+                v2 = {k: (v if v is None else v + v) for k, v in c.values.items()}
+                cells.append(S.mk_cell(type(c), "date", c.period_start, c.period_end, c.evaluation_date, v2, c.metadata))
         lo = min(c.period_start for c in cells)
         hi = max(c.evaluation_date for c in cells)
         evs_all = sorted({c.evaluation_date for c in cells})
@@ -412,10 +449,19 @@ class AggGen(S.SummGen):
         if pres is None and eres is None:
             pres = (1, "year") if kind != "daily" else (7, "days")
         args = {"period_resolution": pres, "eval_resolution": eres, "period_origin": p_origin(), "eval_origin": e_origin(),
-                "summarize_premium": r.random() < 0.85}
+                "summarize_premium": prem}
         info = {"kind": kind, "basis": basis, "n_slices": len(ms), "slice_diff": slice_diff, "layout": layout, "res": res,
-                "values": vk, "n_cells": len(cells), "period_resolution": pres, "eval_resolution": eres}
+                "values": vk, "respelled_slices": respelled, "n_cells": len(cells), "period_resolution": pres, "eval_resolution": eres}
         return cells, args, info
+
+
+def model_sort_is_stable():
+    """Model/Aggregate.v's sort_coords keeps the input order of cells with equal coordinates (as Python's sorted)
+    once coord_insert inserts before the first not-strictly-smaller element; until then restated cells are only
+    fed in configurations whose result does not depend on the order of ties."""
+    from harness.common import COQ
+
+    return "if coord_ltb y x then y :: coord_insert x t else x :: l" in (COQ / "Model" / "Aggregate.v").read_text()
 
 
 def directed_cases():
@@ -441,6 +487,15 @@ def directed_cases():
         out.append((inc, {**base, "period_resolution": (6, "month"), "eval_resolution": None},
                     {**info, "basis": "inc", "kind": "directed:incremental-arrays" if arr else "directed:incremental-scalars",
                      "period_resolution": (6, "month"), "eval_resolution": None}))
+    ma, mb = S.respell(Metadata(), {"coverage": "BI", "state": "NY", "limit": 7})
+    from harness.gen import month_end as _me
+    alt = [CumulativeCell(D(2021, mth, 1), _me(2021, mth), e, {"paid_loss": 10 * mth + i}, (ma, mb)[mth % 2])
+           for mth in range(1, 10) for i, e in enumerate((D(2021, 9, 30), D(2021, 12, 31), D(2022, 3, 31)))]
+    other = [CumulativeCell(D(2021, mth, 1), _me(2021, mth), D(2021, 12, 31), {"paid_loss": mth}, Metadata(country="US"))
+             for mth in range(1, 7)]
+    for cells, kind in ((alt, "directed:respelled-metadata"), (alt + other, "directed:respelled-metadata-two-slices")):
+        out.append((cells, {**base, "period_resolution": (3, "month"), "eval_resolution": None},
+                    {**info, "kind": kind, "period_resolution": (3, "month"), "eval_resolution": None}))
     for cells, pres, eres, kind in ((q, (1, "year"), (1, "year"), "directed:F24"), (two, (1, "year"), (1, "year"), "directed:F24-two-slices"),
                                     ([], (1, "year"), None, "directed:F22"), ([], None, (1, "quarter"), "directed:F22")):
         out.append((cells, {**base, "period_resolution": pres, "eval_resolution": eres},
@@ -483,28 +538,43 @@ def run(ctx):
 
     rng = random.Random(ctx.seed * 1000003 + 8)
     g = AggGen(rng)
-    n = 1100 if ctx.quick else 8000
+    n = 1000 if ctx.quick else 8000
     per_file = 85
     files, body, recs, notes = [], [], [], []
     n_fail = 0
+    from harness import summ_hard
+
     directed = directed_cases()
+    hargs = summ_hard.aggregate_args()
+    for hi, (name, hcells) in enumerate(summ_hard.triangles()):   # notes/HARDENING.md families, every run
+        for a in [hargs[0]] + [hargs[1 + (hi + j) % (len(hargs) - 1)] for j in range(3)]:
+            if name.startswith("I:") and not a["summarize_premium"] and not model_sort_is_stable():
+                a = {**a, "summarize_premium": True}
+            directed.append((hcells, a, {"kind": "hard:" + name, "basis": "cum", "layout": "directed", "n_cells": len(hcells),
+                                         "slice_diff": None, "period_resolution": a["period_resolution"],
+                                         "eval_resolution": a["eval_resolution"]}))
+    n += len(directed)
     for idx in range(n):
         cells, args, info = directed[idx] if idx < len(directed) else g.agg_case()
         try:
-            t, (status, res) = run_aggregate(cells, args)
+            t, (status, res), fails_h = run_aggregate(cells, args, twice=idx < len(directed))
         except Exception:  # noqa: BLE001
-            ctx.hist("gen:invalid-triangle")
+            ctx.hist("gen:invalid-triangle" + (":" + info["kind"] if info["kind"].startswith("hard:") else ""))
             continue
         tcells = list(t.cells)
         n_notes = len(notes)
-        fails = aggregate_oracle(tcells, args, status, res, notes)
+        fails = fails_h + aggregate_oracle(tcells, args, status, res, notes)
+        if info["kind"].startswith("hard:"):
+            ctx.hist("family " + info["kind"][5:6])
         if S.dates_not_plain(tcells) or (status == "ok" and S.dates_not_plain(res)):
             fails.insert(0, "a cell stores a date that is not a plain datetime.date (Cell must normalise Timestamp/datetime inputs)")
         if info["basis"] == "inc" and info.get("values", "").startswith("arr") and len({c.evaluation_date for c in tcells}) >= 3:
             ctx.hist("incremental arrays with >= 3 evaluation dates")
+        if info.get("respelled_slices"):
+            ctx.hist("slice with equal Metadata spelled differently (key order, 7 vs 7.0)")
         if "emptied-slice" in notes[n_notes:]:
             ctx.hist("slice-emptied-by-eval-grid")
-        ctx.hist(f"kind:{info['kind']}/{info['basis']}")
+        ctx.hist(f"kind:{info['kind'].split(':')[0]}/{info['basis']}")
         ctx.hist(f"layout:{info['layout']}")
         ctx.hist(f"pres:{info['period_resolution']}")
         ctx.hist(f"eres:{info['eval_resolution']}")
@@ -529,11 +599,9 @@ def run(ctx):
         recs.append((tcells, args, info, status, res))
         if idx == 20:
             ctx.sample({"case": violation_data(tcells, args, [], info)})
-        if len(body) == per_file:
-            files.append((body, recs))
-            body, recs = [], []
-    if body:
-        files.append((body, recs))
+    # round-robin over the files so that the (heavier) directed cases are spread over all coqc jobs
+    nfiles = max(1, min(16, -(-len(body) // 40))) if len(body) <= 16 * per_file else -(-len(body) // per_file)
+    files = [(body[i::nfiles], recs[i::nfiles]) for i in range(nfiles) if body[i::nfiles]]
     mism = []
     if gen_ok:
         paths = []
